@@ -310,4 +310,8 @@ def run_trace(ctx, module, trace_path, cfg=None, timeout=900, xss="1g"):
         raise ToolError("TLC trace validation failed on %s: %s" % (module, err_excerpt(txt)))
     ctx.states += distinct
     ctx.transitions += gen
+    drift = len(re.findall(r'<<"DRIFT"', tail(out, 400000)))
+    if drift:
+        run["drift"] = drift
+        ctx.note("drift=%d: observations of an internal helper differ from the implementation-shaped spec while the observable behaviour agrees (%s)" % (drift, module))
     return accepted, (rej[0][:1500] if rej else None), distinct
